@@ -177,6 +177,7 @@ class Ctx:
             'known_findings_reported': [v['key'] for v in self.violations if v.get('known')],
             'violations_reported': [{'key': v['key'], 'kind': v['kind'], 'at': v.get('at'), 'msg': v['msg']} for v in self.violations if not v.get('known')],
             'notes': self.notes,
+            'field_aliases_applied': {role: getattr(c, 'field_aliases', {}) for role, c in self.crates.items() if getattr(c, 'field_aliases', {})},
         }
         return {
             'property_id': self.pid,
